@@ -238,17 +238,9 @@ def run(report, p):
     ad = p.funcs.get("ascmhl.generator.MHLGenerationCreationSession.append_multiple_format_directory_hashes")
     if ad is None:
         raise AnalysisError("append_multiple_format_directory_hashes not found")
-    for lp in [n for n in walk_no_nested(ad.node) if isinstance(n, ast.For) and norm(n.iter).endswith(".items()")]:
-        r6.instance(ad, lp, f"for {norm(lp.target)} in {norm(lp.iter)}")
-        fmt, content = [norm(e) for e in lp.target.elts]
-        ok = norm(lp.iter) == f"{ad.params[3]}.items()"
-        ent = [n for n in ast.walk(lp) if isinstance(n, ast.Assign) and isinstance(n.value, ast.Call) and norm(n.value.func).endswith("MHLHashEntry")]
-        st = [n for n in ast.walk(lp) if isinstance(n, ast.Assign) and isinstance(n.targets[0], ast.Attribute) and n.targets[0].attr == "structure_hash_string"]
-        ok = ok and len(ent) == 1 and [norm(a) for a in ent[0].value.args[:2]] == [fmt, content] and len(st) == 1
-        if ok:
-            so = pr.origins(st[0].value, ad)
-            ok = all(o[0] == "elem" and o[1][0] == "param" and o[1][2] == ad.params[4] and o[2] is not None and o[2][0] == "elem" for o in so) and norm(_resolve(ad, st[0].value, st[0])) == f"{ad.params[4]}[{fmt}]"
-        r6.check(ok, ad, lp, "content / structure hashes are not recorded as (digest, structure digest) of the entry of their own format (swapped or crossed formats)", construct="session directory entry")
+    for hf, lp, cname, sname, recv in directory_recording_loops(p, ad):
+        r6.instance(hf, lp, f"for {norm(lp.target)} in {norm(lp.iter)}")
+        r6.check(recording_loop_ok(p, pr, hf, lp, cname, sname), hf, lp, "content / structure hashes are not recorded as (digest, structure digest) of the entry of their own format (swapped or crossed formats)", construct="session directory entry")
     em, mdoc, cdoc, raw = documents(p)
     for el in walk_elems(mdoc):
         if el.tag in ("content", "structure"):
@@ -270,6 +262,52 @@ def run(report, p):
     include_rules(report, p, 'c02', ['R2.1'], 'directory hashes are evaluated over exactly the traversed (non-ignored) entries')
     include_rules(report, p, 'c01', ['R1.3', 'R1.4'], "digests are decoded to bytes by the format's own codec")
     report.not_decided += ["numeric equality with an independent evaluation of the definition on concrete trees", "rename / content-edit relations at run time"]
+
+
+def directory_recording_loops(p, ad):
+    """loops that build one MHLHashEntry per format for a directory record, in `ad` itself or in a helper it calls:
+    [(function, loop, name of the content mapping there, name of the structure mapping there, record receiving the entries in `ad`)]"""
+    out = []
+
+    def loops_in(f):
+        return [n for n in walk_no_nested(f.node) if isinstance(n, ast.For) and any(isinstance(x, ast.Call) and norm(x.func).endswith("MHLHashEntry") for x in ast.walk(n))]
+
+    def recv_of(lp):
+        for x in ast.walk(lp):
+            if isinstance(x, ast.Call) and isinstance(x.func, ast.Attribute) and x.func.attr == "append_hash_entry":
+                return norm(x.func.value)
+        return None
+
+    for lp in loops_in(ad):
+        out.append((ad, lp, ad.params[3], ad.params[4], recv_of(lp)))
+    for call, tg in p.calls[ad.qual]:
+        for t in tg:
+            h = p.funcs.get(t)
+            if h is None or h is ad or not loops_in(h):
+                continue
+            b = {k: norm(v) for k, v in p.bind_args(h, call).items() if v is not None}
+            cname = next((k for k, v in b.items() if v == ad.params[3]), None)
+            sname = next((k for k, v in b.items() if v == ad.params[4]), None)
+            for lp in loops_in(h):
+                r = recv_of(lp)
+                out.append((h, lp, cname, sname, b.get(r, None)))
+    return out
+
+
+def recording_loop_ok(p, pr, hf, lp, cname, sname) -> bool:
+    if cname is None or sname is None or not (isinstance(lp.target, ast.Tuple) and len(lp.target.elts) == 2):
+        return False
+    fmt, content = [norm(e) for e in lp.target.elts]
+    ok = norm(lp.iter) == f"{cname}.items()"
+    ent = [n for n in ast.walk(lp) if isinstance(n, ast.Assign) and isinstance(n.value, ast.Call) and norm(n.value.func).endswith("MHLHashEntry")]
+    st = [n for n in ast.walk(lp) if isinstance(n, ast.Assign) and isinstance(n.targets[0], ast.Attribute) and n.targets[0].attr == "structure_hash_string"]
+    ok = ok and len(ent) == 1 and [norm(a) for a in ent[0].value.args[:2]] == [fmt, content] and len(st) == 1
+    if ok:
+        so = pr.origins(st[0].value, hf)
+        ok = all(o[0] == "elem" and o[1][0] == "param" and o[1][2] == sname and o[2] is not None and o[2][0] == "elem" for o in so) and norm(_resolve(hf, st[0].value, st[0])) == f"{sname}[{fmt}]"
+    if ok:
+        ok = not [x for st_ in lp.body for x in ast.walk(st_) if isinstance(x, (ast.Break, ast.Continue, ast.Return))]
+    return bool(ok)
 
 
 def _anc(n):
